@@ -282,7 +282,9 @@ theorem c11_idle_quiescence {c : Cfg} (hc : WF c) {s : State} (h : Reachable c s
     | fresh => have := (hi.l_fresh j).1 hl; omega
     | queued => have := (hi.l_q j).2 hl; rw [hq] at this; cases this
     | held t => have := (hi.l_held t j).2 hl; rcases hpcs t with h1 | h1 <;> rw [h1] at this <;> cases this
-    | rejected t => have := (hi.l_rej t j).2 hl; rcases hpcs t with h1 | h1 <;> rw [h1] at this <;> cases this
+    | rejected t =>
+      have := (hi.l_rej t j).2 hl
+      rcases this with this | this <;> rcases hpcs t with h1 | h1 <;> rw [h1] at this <;> cases this
     | swapped t =>
       have hm := (hi.l_swap t j).2 hl
       have := hi.l_dqpc t (by intro e; rw [e] at hm; cases hm)
@@ -318,7 +320,9 @@ theorem c11_quiescent_closure_fate {c : Cfg} (hc : WF c) {s : State} (h : Reacha
       | fresh => have := (hi.l_fresh j).1 hl; omega
       | queued => have := (hi.l_q j).2 hl; rw [hi.x_exit_q hex] at this; cases this
       | held t => have := (hi.l_held t j).2 hl; rw [hpcs t] at this; cases this
-      | rejected t => have := (hi.l_rej t j).2 hl; rw [hpcs t] at this; cases this
+      | rejected t =>
+        have := (hi.l_rej t j).2 hl
+        rcases this with this | this <;> rw [hpcs t] at this <;> cases this
       | swapped t =>
         have hm := (hi.l_swap t j).2 hl
         have := hi.l_dqpc t (by intro e; rw [e] at hm; cases hm)
@@ -374,7 +378,7 @@ theorem c11_outcome_partial {c : Cfg} (hc : WF c) {s : State} (h : Reachable c s
     | true => exact hb.1 ha
     | false =>
       exfalso
-      rcases hi.f_arm j (dropKind_bp_hasFut hkk) hj ha with h1 | h1 <;>
+      rcases hi.f_arm j (dropKind_bp_hasFut hkk) hj ha with h1 | h1 | h1 <;>
         rcases hpcs (s.owner j) with h2 | h2 <;> rw [h2] at h1 <;> cases h1
 
 /-- the complement for bare-handle submissions: at quiescence they were executed once or silently lost once -/
@@ -420,7 +424,7 @@ theorem c11_futures_resolved {c : Cfg} (hc : WF c) {s : State} (h : Reachable c 
     | true => rfl
     | false =>
       exfalso
-      rcases hi.f_arm j hhf hj ha with h1 | h1 <;>
+      rcases hi.f_arm j hhf hj ha with h1 | h1 | h1 <;>
         rcases hpcs (s.owner j) with h2 | h2 <;> rw [h2] at h1 <;> cases h1
   have hcd := (hi.b_fut j hk).1 ha
   have hbr := hi.f_broken j hk
@@ -509,7 +513,7 @@ def cfg1 (script : List Act) (raOwns dtorOutside : Bool) : Cfg :=
   { nw := 1, nt := 2, script := fun _ => script, raOwns := raOwns, dtorOutside := dtorOutside }
 
 /-- the client's steps first, then the worker's -/
-def schedClientFirst : List (Nat × Nat) := List.replicate 12 (1, 0) ++ List.replicate 12 (0, 0) ++ List.replicate 12 (1, 0)
+def schedClientFirst : List (Nat × Nat) := List.replicate 20 (1, 0) ++ List.replicate 30 (0, 0) ++ List.replicate 20 (1, 0)
 
 /-- **Open finding: a bare coroutine handle is lost.** `pool.stop(); pool.resume(suspend_point)` on the repaired code:
 the run ends with every thread finished and the submission neither executed nor cancelled (`lost`). The API gives such a
@@ -565,8 +569,8 @@ example :
 second job, both complete (a reachable state with a thread in `Pc.waitFlag` on the way) -/
 example :
     let c : Cfg := { nw := 2, nt := 3, script := fun _ => [Act.submit Kind.fn [Prim.wait 0] false, Act.submit Kind.det [Prim.set 0] false] }
-    let mid := run c (init c) (List.replicate 6 (2, 0) ++ List.replicate 4 (0, 0))
-    let s := run c mid (List.replicate 8 (1, 0) ++ List.replicate 8 (0, 0))
+    let mid := run c (init c) (List.replicate 8 (2, 0) ++ List.replicate 6 (0, 0))
+    let s := run c mid (List.replicate 14 (1, 0) ++ List.replicate 14 (0, 0))
     mid.pc 0 = Pc.waitFlag 0 ∧ mid.q = [1] ∧ (∀ t, t < 3 → enabled s t = false) ∧ s.exit = false ∧
     s.ran 0 = 1 ∧ s.ran 1 = 1 ∧ s.fut 0 = Fut.value ∧ s.q = [] := by
   decide
